@@ -78,8 +78,12 @@ Definition unit_of_piece (p : piece) : option unit_ :=
 Record quantity := { qv : F; qu : unit_ }.
 Definition qnew (v : F) (u : unit_) : quantity := {| qv := v; qu := u |}.
 Definition qdimless (v : F) : quantity := qnew v U_DIMLESS.
+(* both cfg bodies clear the sign bit (std: f32::abs; no_std: from_bits(to_bits & 0x7FFF_FFFF)) *)
 Definition qabs (q : quantity) : quantity :=
-  qnew (if stdf c then fabs_std (qv q) else fabs_nostd (qv q)) (qu q).
+  let _ := c in     (* keeps the configuration argument of the function although no body depends on it any more *)
+  qnew (fabs_std (qv q)) (qu q).
+(* the no_std body before the repair: if v >= 0.0 { v } else { -v } *)
+Definition qabs_old_nostd (q : quantity) : quantity := qnew (fabs_nostd (qv q)) (qu q).
 Definition qadd (a b : quantity) : res quantity :=
   let! u := uadd (qu a) (qu b) in Ok (qnew (fadd (qv a) (qv b)) u).
 Definition qsub (a b : quantity) : res quantity :=
